@@ -45,7 +45,10 @@ def parse_nav(out):
 def expected_callers(p, info, m):
     exp = []
     for i in p["callers"][m]["top"]:
-        exp.append(("top level", info["site_rows"][i - 1], p["sites"][i - 1].get("ctx", "plain")))
+        ctx = p["sites"][i - 1].get("ctx", "plain")
+        exp.append(("top level", info["site_rows"][i - 1], ctx))
+        if ctx == "twice":
+            exp.append(("top level", info["site_rows"][i - 1], ctx))
     for n in p["callers"][m]["body"]:
         exp.append((n, info["body_call_row"][n], "body"))
     return exp
@@ -81,7 +84,7 @@ def run(tier, work):
     v = C.Verdict("C24", tier, work)
     rng = C.tier_rng(tier, 24)
     stats = dict(states=0, transitions=0, runs=0)
-    ctxs = ("plain", "if-cond", "while-cond", "arg", "block")
+    ctxs = ("plain", "if-cond", "while-cond", "arg", "block", "twice")
     progs = M.emit(work, stats, 2, 2, ctxs)
     if tier == "quick":
         progs = rng.sample(progs, 700)
